@@ -172,7 +172,11 @@ func cmdCheck(args []string) int {
 		validated += r.Validated
 		exhaustive = exhaustive && r.Exhaustive
 		if len(samples) < 12 {
-			for _, s := range r.Samples[:min(len(r.Samples), 3)] {
+			pick := r.Samples
+			if len(pick) > 3 { // the first maximal trace and the two latest alphabet-covering ones
+				pick = []any{pick[0], pick[len(pick)-2], pick[len(pick)-1]}
+			}
+			for _, s := range pick {
 				if len(samples) < 12 {
 					samples = append(samples, map[string]any{"unit": r.Name, "params": r.Params, "case": s})
 				}
